@@ -35,7 +35,10 @@ PROPS['C04'] = Prop(
     level='proof',
     explanation='RoleCheck.__call__ is proved, for all targets, credentials and match strings, to allow iff the '
                 'formatted match equals (after str.lower on both sides) some element of creds["roles"]; a missing '
-                'target key or missing roles entry denies; no exception escapes.',
+                'target key or missing roles entry denies; no exception escapes. ADDITIONALLY (bounded, labelled): the same '
+                'rules through Rules.load and Enforcer.enforce, with dict and RequestContext credentials, the library logger at '
+                'WARNING and DEBUG, placeholder keys that look like secrets, several role checks in one rule, and histories of '
+                'contexts sharing a request id on one enforcer.',
     assumptions=COMMON_ASSUME + [
         'self.match contains % only in well-formed %(name)s placeholders (wfp); other % uses are outside C04',
         'creds["roles"], if present, is a list of strings; target and creds are mappings',
@@ -50,7 +53,10 @@ PROPS['C05'] = Prop(
     level='proof',
     explanation='GenericCheck.__call__ and the recursive _find_in_dict are proved against walk(): literal left sides '
                 'compare their string form, path left sides walk the credentials with any-element fan-out at lists; '
-                'missing target key / missing attribute / non-container on the path deny.',
+                'missing target key / missing attribute / non-container on the path deny; _parse_check gives a kind that is '
+                'not registered exactly as written to the generic check. ADDITIONALLY (bounded, labelled): attribute rules whose '
+                'left side is a case variant of a registered kind or looks like a secret, through Rules.load and Enforcer.enforce '
+                'at both log levels.',
     assumptions=COMMON_ASSUME + [
         'ast.literal_eval stub: returns litval(s) when is_literal(s), else raises ValueError/SyntaxError/MemoryError/'
         'RecursionError', 'credentials are JSON-like (no objects); str(x) is the uninterpreted pystr on both sides',
